@@ -29,6 +29,40 @@ type chainCase struct {
 	Chunk    gen.Chunking `json:"chunking"`
 	Sentinel int          `json:"sentinel_bytes"`
 	Corrupt  int          `json:"corrupt_offset"` // >= 0: flip a byte of the first file's data area at this offset (failing decode variant)
+	// BadType > 0: the first file's file_id.type is BadType-1 (any byte: a
+	// type the library does not support, manufacturer-specific, invalid) with
+	// the file checksum adjusted - an intact frame that Decode refuses
+	BadType int `json:"file_type_plus_one,omitempty"`
+}
+
+// patchFileType sets the type field of the first file_id record of the frame
+// img and recomputes the file checksum. It reports whether it found the field.
+func patchFileType(img []byte, t byte) bool {
+	p, err := fitmodel.Parse(img)
+	if err != nil {
+		return false
+	}
+	for ri, r := range p.Stream.Recs {
+		if r.IsDef || r.Compressed {
+			continue
+		}
+		def := p.Stream.Recs[p.DefOfData[ri]]
+		if def.Global != 0 {
+			return false
+		}
+		off := 0
+		for _, fd := range def.Fields {
+			if fd.Num == 0 && fd.Size == 1 {
+				img[p.Layout.RecStart[ri]+1+off] = t
+				crc := fitmodel.CRC(img[:len(img)-2])
+				img[len(img)-2], img[len(img)-1] = byte(crc), byte(crc>>8)
+				return true
+			}
+			off += int(fd.Size)
+		}
+		return false
+	}
+	return false
 }
 
 func frameLen(b []byte) int {
@@ -80,6 +114,13 @@ func check(rec *hx.Recorder, c chainCase) (string, bool) {
 			}
 			in[off] ^= 0x5A
 		}
+		failing := c.Corrupt >= 0
+		if c.BadType > 0 {
+			in = append([]byte{}, withSentinel...)
+			if patchFileType(in[:frame], byte(c.BadType-1)) {
+				failing = true
+			}
+		}
 
 		// Decode
 		r := gen.NewReader(in, c.Chunk)
@@ -88,7 +129,7 @@ func check(rec *hx.Recorder, c chainCase) (string, bool) {
 			msg = fmt.Sprintf("Decode consumed %d bytes, the frame is %d (header %d + data %d + 2) [err=%v]", r.Delivered, frame, first[0], frame-int(first[0])-2, err)
 			return
 		}
-		if c.Corrupt < 0 {
+		if !failing {
 			if err != nil {
 				msg = fmt.Sprintf("Decode failed under chunking %v: %v", c.Chunk, err)
 				return
@@ -143,7 +184,7 @@ func check(rec *hx.Recorder, c chainCase) (string, bool) {
 			msg = fmt.Sprintf("DecodeHeaderAndFileID consumed %d bytes, the frame is %d", r.Delivered, frame)
 			return
 		}
-		if c.Corrupt < 0 {
+		if !failing {
 			if err != nil {
 				msg = fmt.Sprintf("DecodeHeaderAndFileID failed: %v", err)
 				return
@@ -153,7 +194,7 @@ func check(rec *hx.Recorder, c chainCase) (string, bool) {
 				return
 			}
 		}
-		if c.Corrupt >= 0 {
+		if failing {
 			return
 		}
 		// the same through the concrete reader types programs use (seekable
@@ -363,6 +404,26 @@ func TestC10(t *testing.T) {
 			rec.Eval("aligned", na)
 			rec.NonTrivialEnum(na)
 
+			// deterministic: every file type byte (supported or not) in an
+			// intact frame followed by more data, under every standard
+			// chunking: whether or not Decode takes the file, nobody reads
+			// past the frame
+			nt := int64(0)
+			img := base.Bytes()
+			for t := 0; t < 256; t++ {
+				for _, ch := range gen.StandardChunkings() {
+					c := chainCase{Chunk: ch, Sentinel: 5000, Corrupt: -1, BadType: t + 1, Files: []string{hex.EncodeToString(img)}}
+					nt++
+					if msg, ok := check(rec, c); !ok {
+						rec.Fail("file-types", "", fmt.Sprintf("file type byte %d: %s", t, msg), c)
+						t = 256
+						break
+					}
+				}
+			}
+			rec.Eval("file-types", nt)
+			rec.NonTrivialEnum(nt)
+
 		}
 
 		hx.RapidCheck(t, rec, "chains", func(rt *rapid.T, fail func(string, string, any)) {
@@ -387,6 +448,9 @@ func TestC10(t *testing.T) {
 			if d.Chance(15, "corrupt") {
 				c.Corrupt = d.Int(0, 100000, "coff")
 				rec.Class("failing-variant", 1)
+			} else if d.Int(0, 9, "badtype") == 0 {
+				c.BadType = 1 + []int{0xF7, 0xFE, 0xFA, 0xF6, 0xFF, 0, 3, 12, 16, 36, 50, d.Int(0, 255, "anytype")}[d.Int(0, 11, "badtypesel")]
+				rec.Class("refused-file-type-variant", 1)
 			}
 			rec.Eval("chains", 1)
 			nontriv := big
